@@ -477,39 +477,80 @@ impl Glue {
     /// TeX.2021.1239
     pub fn wrapping_add(self, rhs: Glue) -> Self {
         use std::cmp::Ordering::*;
+        let (stretch_cmp, stretch_order) = Glue::cmp_components(
+            self.stretch,
+            self.stretch_order,
+            rhs.stretch,
+            rhs.stretch_order,
+        );
+        let (shrink_cmp, shrink_order) =
+            Glue::cmp_components(self.shrink, self.shrink_order, rhs.shrink, rhs.shrink_order);
         Glue {
             width: self.width.wrapping_add(rhs.width),
-            stretch: match self.stretch_order.cmp(&rhs.stretch_order) {
+            stretch: match stretch_cmp {
                 Less => rhs.stretch,
                 Equal => self.stretch.wrapping_add(rhs.stretch),
                 Greater => self.stretch,
             },
-            stretch_order: self.stretch_order.max(rhs.stretch_order),
-            shrink: match self.shrink_order.cmp(&rhs.shrink_order) {
+            stretch_order,
+            shrink: match shrink_cmp {
                 Less => rhs.shrink,
                 Equal => self.shrink.wrapping_add(rhs.shrink),
                 Greater => self.shrink,
             },
-            shrink_order: self.shrink_order.max(rhs.shrink_order),
+            shrink_order,
         }
     }
     pub fn checked_add(self, rhs: Glue) -> Option<Self> {
         use std::cmp::Ordering::*;
+        let (stretch_cmp, stretch_order) = Glue::cmp_components(
+            self.stretch,
+            self.stretch_order,
+            rhs.stretch,
+            rhs.stretch_order,
+        );
+        let (shrink_cmp, shrink_order) =
+            Glue::cmp_components(self.shrink, self.shrink_order, rhs.shrink, rhs.shrink_order);
         Some(Glue {
             width: self.width.checked_add(rhs.width)?,
-            stretch: match self.stretch_order.cmp(&rhs.stretch_order) {
+            stretch: match stretch_cmp {
                 Less => rhs.stretch,
                 Equal => self.stretch.checked_add(rhs.stretch)?,
                 Greater => self.stretch,
             },
-            stretch_order: self.stretch_order.max(rhs.stretch_order),
-            shrink: match self.shrink_order.cmp(&rhs.shrink_order) {
+            stretch_order,
+            shrink: match shrink_cmp {
                 Less => rhs.shrink,
                 Equal => self.shrink.checked_add(rhs.shrink)?,
                 Greater => self.shrink,
             },
-            shrink_order: self.shrink_order.max(rhs.shrink_order),
+            shrink_order,
         })
+    }
+    /// Compares a stretch or shrink component of this glue with the same
+    /// component of a glue that is added to it, and returns the order of the sum.
+    ///
+    /// TeX.2021.1239: a zero component of the added glue is finite, and a
+    /// higher order of this glue only wins if its component is non-zero.
+    fn cmp_components(
+        lhs: Scaled,
+        lhs_order: GlueOrder,
+        rhs: Scaled,
+        rhs_order: GlueOrder,
+    ) -> (std::cmp::Ordering, GlueOrder) {
+        use std::cmp::Ordering::*;
+        let rhs_order = if rhs == Scaled::ZERO {
+            GlueOrder::Normal
+        } else {
+            rhs_order
+        };
+        if lhs_order == rhs_order {
+            (Equal, lhs_order)
+        } else if lhs_order > rhs_order && lhs != Scaled::ZERO {
+            (Greater, lhs_order)
+        } else {
+            (Less, rhs_order)
+        }
     }
     pub fn checked_mul(self, rhs: i32) -> Option<Self> {
         Some(Glue {
